@@ -457,6 +457,10 @@ func (g *gen) allowedWrite(p *Place) string {
 		g.declareFun("private", []string{"Int"}, "Bool")
 		conds = append(conds, app("private", ref))
 	}
+	if p.Kind == plElem {
+		// a nil slice has no elements: nothing that existed before can be written through it
+		conds = append(conds, eq(p.Base, "0"))
+	}
 	for _, a := range g.assignPlaces {
 		if a.Kind != p.Kind {
 			continue
